@@ -88,9 +88,8 @@ def check_cell(r, case, ir, cell):
     if style != "rest" and has_ret and not params and is_open("P22"):
         r.covered("P22")
         return
-    if style == "numpydoc" and has_ret and not et and is_open("P23"):
-        r.covered("P23")
-        return
+    # P23 (numpydoc return entry written without types): relaxes the clauses listed below, not the cell
+    p23 = style == "numpydoc" and has_ret and not et and is_open("P23")
     try:
         with core.quiet():
             back = cdd.docstring.parse.docstring(ds, emit_default_doc=pedd)
@@ -113,7 +112,9 @@ def check_cell(r, case, ir, cell):
             return
     got_names = list(back["params"])
     want_names = [n for n, _p in params]
-    if got_names != want_names:
+    if p23 and got_names != want_names and got_names[: len(want_names)] == want_names:
+        r.covered("P23")  # the un-typed return section is read as further parameters: only the tail is garbage
+    elif got_names != want_names:
         r.fail("names", "%s want %s got %s text=%r" % (tag, want_names, got_names, ds[:400]))
         return
     for n, p in params:
@@ -168,6 +169,9 @@ def check_cell(r, case, ir, cell):
     if " ".join((back.get("doc") or "").split()) != " ".join(case["doc"].split()):
         r.fail("header", "%s %r -> %r" % (tag, case["doc"], back.get("doc")))
     wr, gr = case["returns"], (back.get("returns") or {}).get("return_type")
+    if p23:
+        r.covered("P23")
+        return
     if (wr is None) != (gr is None):
         r.fail("returns-presence", "%s want %r got %r text=%r" % (tag, wr, gr, ds[-200:]))
     elif wr is not None:
